@@ -8,6 +8,10 @@ INVARIANT MergeExact
 INVARIANT InputChunksHazard
 INVARIANT MergesExist
 INVARIANT ThinAxis
+INVARIANT ExactlyOneOwnerHalfPixel
+INVARIANT ClosedWindowHazard
+INVARIANT LandscapeEdge
+INVARIANT EmitEven
 INVARIANT BallNotCube
 INVARIANT EmitSlab
 INVARIANT Emit
